@@ -112,6 +112,28 @@ func run(cfg lib.Cfg) error {
 		sc.Acts = append(sc.Acts, ts.Act{Do: "step", Tid: 1}, ts.Act{Do: "step", Tid: 2})
 		judge(sc, "corpus-one-integration-two-sources")
 	}
+	// corpus: an integration saved TWICE under one name in shovel.integrations (no unique
+	// index; a dashboard save repeated), identical rows or rows with different filters, next
+	// to an integration from the file.  loadTasks must build one task per (source,
+	// integration) pair; the loaded tasks are stepped round-robin and each position may only
+	// advance by the task's own consecutive loads.
+	for v := 0; v < 2; v++ {
+		sc := &ts.Scenario{Name: fmt.Sprintf("corpus-integration-saved-twice-%d", v), Seed: uint64(88 + v), Head: 8, SnapEvery: true,
+			Gen:  ts.GenOpts{MaxTxs: 2, MaxLogs: 3, Decoys: true, EmptyProb: 10},
+			Srcs: []ts.SrcSpec{{Name: "main", ChainID: 1, Batch: 2, Conc: 1, URL: "http://main.invalid"}},
+			IGs: []ts.IGSpec{
+				{Name: "ig1", Shape: "log", Table: "t1", Sources: []ts.SrcRef{{Name: "main", Start: 1}}},
+				{Name: "ig2", Shape: "tx", Table: "t2", Sources: []ts.SrcRef{{Name: "main", Start: 1}}},
+			},
+			DBRows: []ts.DBRow{{Name: "ig1", Copies: 2, FirstDiffers: v == 1}}}
+		for k := 0; k < 6; k++ {
+			sc.Acts = append(sc.Acts, ts.Act{Do: "stepall"})
+			if k == 2 {
+				sc.Acts = append(sc.Acts, ts.Act{Do: "restart"})
+			}
+		}
+		judge(sc, "corpus-integration-saved-twice")
+	}
 	n := 30
 	if cfg.Thorough() {
 		n = 1500
